@@ -85,11 +85,12 @@ static void holder_prepare(Holder *h, int ep, int be, int prior)
     if (prior == 0) verif_paint_obj(h, sizeof(*h));
     memset(&h->co, 0, sizeof(h->co)); memset(&h->po, 0, sizeof(h->po));
     switch (ep) {
-    case EP_S128_KEY: case EP_S128_TKEY: if (prior) skinny128_set_tweaked_key(&h->k128, pk[prior - 1], pl); break;
-    case EP_S64_KEY: case EP_S64_TKEY: if (prior) skinny64_set_tweaked_key(&h->k64, pk[prior - 1], pl); break;
+    /* the prior object carries a non-zero tweak, so that "unchanged on rejection" covers the remembered tweak too */
+    case EP_S128_KEY: case EP_S128_TKEY: if (prior) { skinny128_set_tweaked_key(&h->k128, pk[prior - 1], pl); skinny128_set_tweak(&h->k128, pk[prior - 1] + 5, 16); } break;
+    case EP_S64_KEY: case EP_S64_TKEY: if (prior) { skinny64_set_tweaked_key(&h->k64, pk[prior - 1], pl); skinny64_set_tweak(&h->k64, pk[prior - 1] + 5, 8); } break;
     case EP_CTR128_KEY: case EP_CTR128_TKEY: case EP_CTR64_KEY: case EP_CTR64_TKEY:
         if (!ctr_init(ep_cipher(ep), be, &h->co)) engine_error("ctr init");
-        if (prior) ctr_set_tweaked_key(ep_cipher(ep), &h->co, pk[prior - 1], pl);
+        if (prior) { ctr_set_tweaked_key(ep_cipher(ep), &h->co, pk[prior - 1], pl); ctr_set_tweak(ep_cipher(ep), &h->co, pk[prior - 1] + 5, (unsigned)ep_bs(ep)); }
         break;
     default:
         if (!par_init(ep_cipher(ep), be, &h->po)) engine_error("par init");
